@@ -36,7 +36,7 @@ def run_proxy_property(prop, tier, seed, fams, nquick, nthorough, rule, assumpti
                       "actions_never_taken": sorted(a for a, n in (r.get("actions") or {}).items() if n == 0)})
     n = nquick if tier == "quick" else nthorough
     flist = list(fams(tier))
-    with ThreadPoolExecutor(max_workers=6) as ex:
+    with ThreadPoolExecutor(max_workers=11) as ex:
         results = list(ex.map(lambda t: proxyfam.run_family(t[1], n, seed * 1000 + 500 + t[0]), enumerate(flist)))
     traces = lines = 0
     kinds, famres, sample = {}, [], None
@@ -54,6 +54,7 @@ def run_proxy_property(prop, tier, seed, fams, nquick, nthorough, rule, assumpti
                 if key in seen:
                     continue
                 if not confirmed(f, p, prop):
+                    _debug_dump(f, p)
                     notes.append("family %s behaviour %s: a mismatch (line %d, %s) did not reproduce when replayed alone; not counted" %
                                  (f["name"], p["behaviour"], p["line"], ",".join(p["cats"])))
                     continue
@@ -63,6 +64,7 @@ def run_proxy_property(prop, tier, seed, fams, nquick, nthorough, rule, assumpti
                                          "input": p["replay_input"]})
                 viol.append(path)
             else:
+                _debug_dump(f, p)
                 notes.append("family %s behaviour %s: first mismatch (line %d) concerns %s, not %s" %
                              (f["name"], p["behaviour"], p["line"], ",".join(p["props"]), prop))
     extra_cov = {}
@@ -80,6 +82,15 @@ def run_proxy_property(prop, tier, seed, fams, nquick, nthorough, rule, assumpti
         print("NOTE " + nl)
     vlib.write_evidence(prop, tier, level, cov, time.time() - t0, len(viol), assumptions)
     return viol
+
+
+def _debug_dump(f, p):
+    """VERIF_DEBUG_NOTES=<dir>: keep what was seen for mismatches that are not reported (for studying flakiness)"""
+    d = os.environ.get("VERIF_DEBUG_NOTES")
+    if d:
+        os.makedirs(d, exist_ok=True)
+        json.dump({k: p.get(k) for k in ("props", "cats", "line", "kind", "event", "context", "replay_input", "model")},
+                  open(os.path.join(d, "%s-b%s-%d.json" % (f["name"], p["behaviour"], int(time.time() * 1000) % 100000)), "w"), indent=1)
 
 
 def confirmed(f, p, prop):
